@@ -11,6 +11,26 @@ PID = "C13"
 KEYS = [b"a", b"b", b"ab", b"a/b", b"m~n", b"~1", b"", b"0", b"1", b"-", b"foo", b"x y", b"c%d", b"~0~1", b"k\x01", b"e\xc3\xa9"]
 
 
+BASE_KEYS = list(KEYS)
+
+
+def set_key_pool(rng):
+    """per-document member-name pool: the short adversarial names, plus (in 1 document of 5) names whose ESCAPED length sits on / next to a power of two
+    (any fixed-size scratch buffer, length field or growth step in token handling has to cope with them)"""
+    global KEYS
+    KEYS = list(BASE_KEYS)
+    if rng.random() < 0.2:
+        for _ in range(rng.choice([2, 3, 5])):
+            target = rng.choice([8, 15, 16, 17, 31, 32, 33, 63, 64, 64, 65, 127, 128, 129, 255, 256, 257, 300])
+            nsp = rng.choice([0, 1, 1, 2, 3])
+            raw = [bytes([rng.choice(b"abcdefgxyz0189 ")]) for _ in range(max(1, target - 2 * nsp))]
+            for _ in range(nsp):
+                raw.insert(rng.randrange(len(raw) + 1), rng.choice([b"~", b"/"]))
+            KEYS.append(b"".join(raw))
+        return True
+    return False
+
+
 def esc(k):
     return k.replace(b"~", b"~0").replace(b"/", b"~1")
 
@@ -81,10 +101,17 @@ def gen_patch(rng, doc):
             k = rng.random()
             if k < 0.2:
                 op = {b"op": rng.choice([b"remove", b"replace", b"test", b"add"]), b"path": ptr(rng.choice(paths)) + b"/nonexistent/x", b"value": 1}
-            elif k < 0.35 and nonroot:
-                p = rng.choice(nonroot)
-                if isinstance(node_at(cur.v, p), dict):
-                    op = {b"op": b"move", b"from": ptr(p), b"path": ptr(p) + b"/child"}
+            elif k < 0.35:
+                # "from" is a proper prefix of "path" (RFC 6902 4.4): the whole document included, any depth below, existing or new location
+                conts = [q for q in paths if isinstance(node_at(cur.v, q), (dict, list))]
+                if conts:
+                    p = rng.choice(conts)
+                    under = [q for q in paths if len(q) > len(p) and q[:len(p)] == p]
+                    if under and rng.random() < 0.5:
+                        dst = ptr(rng.choice(under))
+                    else:
+                        dst = ptr(p) + (b"/child" if isinstance(node_at(cur.v, p), dict) else rng.choice([b"/-", b"/0"]))
+                    op = {b"op": b"move", b"from": ptr(p), b"path": dst}
             elif k < 0.5:
                 arrs = [p for p in paths if isinstance(node_at(cur.v, p), list)]
                 if arrs:
@@ -264,11 +291,14 @@ def shard_fn(shard, nshards, seed, tier, exe, nconf, nrob):
     for raw in RAW:
         add_case({b"a": 1}, refjson.parse(raw), "raw-text", raw=raw)
     for _ in range(nconf // nshards):
+        if set_key_pool(rng):
+            sh.count("documents.with_long_member_names")
         doc = gen_value(rng)
         while not isinstance(doc, (list, dict)):
             doc = gen_value(rng)
         add_case(doc, gen_patch(rng, doc), "conformance")
     for i in range(nrob // nshards):
+        set_key_pool(rng)
         doc = gen_value(rng)
         while not isinstance(doc, (list, dict)):
             doc = gen_value(rng)
